@@ -159,7 +159,7 @@ func runC05(c *Ctx, r *Report, tier string) {
 		fn := c.fname(s.Fn)
 		v := c.term(s.Store.Val)
 		by := func(name string) bool { a := c.Fn(name); return a != nil && c.actsFor(s.Fn, a) }
-		ok := (by("(*Option).Set") && v == "true") || (by("(*Option).setDefault") && v == "false") || (by("(*IniParser).parse") && (v == "true" || v == "false"))
+		ok := (by("(*Option).Set") && v == "true") || (by("(*Parser).parseOption") && v == "true") || (by("(*Option).setDefault") && v == "false") || (by("(*IniParser).parse") && (v == "true" || v == "false"))
 		r.Check(ok, "FLAGS", fn, "store preventDefault = "+v, c.ipos(s.Store), "allowed writer and constant", "preventDefault stored as "+v+" in "+fn)
 	}
 	for _, ret := range returnsOf(set) {
